@@ -473,7 +473,7 @@ static void gen_roles(Src& s, Roles& r) {
     memcpy(r.sta, MACS[1 + s.pick(3)], 6);
     if (s.chance(15)) gen_mac(s, r.sta);
     if (memcmp(r.sta, r.bssid, 6) == 0) r.sta[5] ^= 1;
-    switch (s.weighted({3, 4, 1, 1})) {
+    switch (s.weighted({2, 5, 1, 1})) {
         default:
         case 0: memcpy(r.third, r.bssid, 6); break;
         case 1: memcpy(r.third, MACS[1 + s.pick(3)], 6); break;
@@ -771,13 +771,18 @@ static void case_hostile(Src& s, Ctx& ctx) {
         if (s.chance(20)) h.fc1 &= (uint8_t)~0x40;   // protected bit clear
     }
     const KeySet& k = hostile_keys(cipher);
-    bool raw = s.boolean();
+    unsigned sub = s.u8();
+    bool raw = (sub & 1) != 0;
     Bytes body;
     std::string how;
     if (raw) {
         body = s.rest();
         if (body.size() > 2400) body.resize(2400);
         how = "raw";
+    } else if (((sub >> 1) & 3) == 3) {
+        // arbitrary bytes around the minimum lengths (cipher header + MIC/ICV)
+        body = s.bytes((size_t)s.range(0, 24));
+        how = "short";
     } else {
         Bytes plain;
         if (s.chance(30)) plain = s.bytes((size_t)s.range(0, 7));   // authentic frames whose plaintext is no SNAP header
@@ -818,7 +823,7 @@ static void case_hostile(Src& s, Ctx& ctx) {
     ctx.hash(std::string("hostile")); ctx.hash(cipher); ctx.hash(hash_bytes(frame.data(), frame.size())); ctx.hash(container);
     ctx.label("class-hostile");
     ctx.label(std::string("hostile-") + cipher_tag(cipher));
-    ctx.label(raw ? "hostile-raw" : "hostile-edited-valid");
+    ctx.label(raw ? "hostile-raw" : (how == "short" ? "hostile-short" : "hostile-edited-valid"));
     if (body.size() < minlen) ctx.label("hostile-shorter-than-header+mic");
     if (body.empty()) ctx.label("hostile-empty-body");
     if (odd_variant) ctx.label("hostile-odd-header-variant");
@@ -1155,6 +1160,19 @@ struct Hist {
         tx(x, p.kind, p.rc, force);
         return true;
     }
+    // message 1 retransmitted, both answered; the answer to the retransmission is on the air only after message 3
+    void race(Sta& x) {
+        if (x.attempt == 0 || x.ap_phase != 1 || !x.pend.empty()) start(x, true);
+        if (x.ap_phase != 1) return;
+        ++x.rc; x.m1_rcs.push_back(x.rc); ++retrans; ctx.label("hs-m1-retransmitted");
+        tx(x, 1, x.rc, true);                 // pending: M2(rc), M2(rc')
+        if (x.pend.size() < 2) return;
+        send_pending(x, true);                // M2(rc)  -> pending: M2(rc'), M3
+        if (x.pend.size() < 2) return;
+        std::swap(x.pend[0], x.pend[1]);
+        send_pending(x, true);                // M3      -> pending: M2(rc'), M4
+        for (int guard = 0; guard < 6 && !x.pend.empty(); ++guard) send_pending(x, true);
+    }
     void fast_forward(Sta& x) {
         if (x.attempt == 0 || x.ap_phase == 3 || x.ap_phase == 0) start(x, true);
         for (int guard = 0; guard < 12 && !x.pend.empty(); ++guard) send_pending(x, true);
@@ -1358,7 +1376,8 @@ static void case_history(Src& s0, Ctx& ctx) {
         else if (act <= 17) H.data(x, false, -1);
         else if (act == 18) H.do_beacon();
         else if (act == 19) H.noise(x);
-        else H.fast_forward(x);
+        else if (act == 20) H.fast_forward(x);
+        else H.race(x);
     }
     // final probes: one frame per direction under each station's installed key
     for (size_t i = 0; i < H.st.size(); ++i) {
@@ -1390,7 +1409,7 @@ static void case_history(Src& s0, Ctx& ctx) {
         }
         if (!H.lossy) VCHECK(ctx, n == H.st[i].expected_cb, H.tagc() + ":callback-count", "station " << i << ": handshake callback fired " << n << " times for "
                              << H.st[i].expected_cb << " completed handshakes; history:" << H.ctxt());
-        else VCHECK(ctx, n <= H.st[i].m4_seen_frames && (n == 0 || H.pass_ok), H.tagc() + ":lossy:callback-count", "station " << i << ": " << n << " callbacks, " << H.st[i].m4_seen_frames << " message-4 frames seen");
+        else VCHECK(ctx, n == 0 || (H.pass_ok && H.ap_known), H.tagc() + ":lossy:callback-without-valid-psk", "station " << i << ": " << n << " handshake callbacks although the decrypter has no valid PSK / BSSID for the network");
     }
     VCHECK(ctx, H.hs_cbs.size() <= 200, H.tagc() + ":callback-count", "too many callbacks");
     for (size_t c = 0; c < H.hs_cbs.size(); ++c) {
